@@ -3,6 +3,7 @@ package compiler
 import (
 	"fmt"
 	"math"
+	"strings"
 
 	"github.com/glyphlang/glyph/pkg/ast"
 )
@@ -122,11 +123,15 @@ func (o *Optimizer) OptimizeStatements(stmts []ast.Statement) []ast.Statement {
 			// Optimize the value expression
 			optimizedValue := o.OptimizeExpression(s.Value)
 
+			// The target gets a new value: what was known about the old one,
+			// and about everything computed from it, no longer holds.
+			o.kill(s.Target)
+
 			// Copy propagation: track variable-to-variable assignments
-			if varExpr, ok := optimizedValue.(*ast.VariableExpr); ok {
+			if varExpr, ok := optimizedValue.(*ast.VariableExpr); ok && varExpr.Name != s.Target {
 				o.copies[s.Target] = varExpr.Name
-				// Invalidate constant and expression tracking for this variable
-				delete(o.constants, s.Target)
+			} else if ok {
+				// x = x: nothing to learn
 			} else {
 				// Not a copy, remove from copy tracking
 				delete(o.copies, s.Target)
@@ -134,7 +139,7 @@ func (o *Optimizer) OptimizeStatements(stmts []ast.Statement) []ast.Statement {
 				// Common subexpression elimination (only for OptAggressive)
 				if o.level >= OptAggressive {
 					key := exprKey(optimizedValue)
-					if key != "" {
+					if key != "" && !keyMentions(key, s.Target) {
 						// Check if this expression was already computed
 						if existingVar, ok := o.expressions[key]; ok {
 							// Reuse the existing variable
@@ -167,11 +172,15 @@ func (o *Optimizer) OptimizeStatements(stmts []ast.Statement) []ast.Statement {
 			// Optimize the value expression (same logic as AssignStatement)
 			optimizedValue := o.OptimizeExpression(s.Value)
 
+			// The target gets a new value: what was known about the old one,
+			// and about everything computed from it, no longer holds.
+			o.kill(s.Target)
+
 			// Copy propagation: track variable-to-variable assignments
-			if varExpr, ok := optimizedValue.(*ast.VariableExpr); ok {
+			if varExpr, ok := optimizedValue.(*ast.VariableExpr); ok && varExpr.Name != s.Target {
 				o.copies[s.Target] = varExpr.Name
-				// Invalidate constant and expression tracking for this variable
-				delete(o.constants, s.Target)
+			} else if ok {
+				// x = x: nothing to learn
 			} else {
 				// Not a copy, remove from copy tracking
 				delete(o.copies, s.Target)
@@ -179,7 +188,7 @@ func (o *Optimizer) OptimizeStatements(stmts []ast.Statement) []ast.Statement {
 				// Common subexpression elimination (only for OptAggressive)
 				if o.level >= OptAggressive {
 					key := exprKey(optimizedValue)
-					if key != "" {
+					if key != "" && !keyMentions(key, s.Target) {
 						// Check if this expression was already computed
 						if existingVar, ok := o.expressions[key]; ok {
 							// Reuse the existing variable
@@ -212,15 +221,18 @@ func (o *Optimizer) OptimizeStatements(stmts []ast.Statement) []ast.Statement {
 			// Same as *ast.ReassignStatement
 			optimizedValue := o.OptimizeExpression(s.Value)
 
-			if varExpr, ok := optimizedValue.(*ast.VariableExpr); ok {
+			o.kill(s.Target)
+
+			if varExpr, ok := optimizedValue.(*ast.VariableExpr); ok && varExpr.Name != s.Target {
 				o.copies[s.Target] = varExpr.Name
-				delete(o.constants, s.Target)
+			} else if ok {
+				// x = x: nothing to learn
 			} else {
 				delete(o.copies, s.Target)
 
 				if o.level >= OptAggressive {
 					key := exprKey(optimizedValue)
-					if key != "" {
+					if key != "" && !keyMentions(key, s.Target) {
 						if existingVar, ok := o.expressions[key]; ok {
 							optimizedValue = &ast.VariableExpr{Name: existingVar}
 							o.copies[s.Target] = existingVar
@@ -292,11 +304,7 @@ func (o *Optimizer) OptimizeStatements(stmts []ast.Statement) []ast.Statement {
 			// First, invalidate constants for any variables modified in the loop body
 			// because the loop may execute multiple times or not at all
 			modifiedVars := getModifiedVariables(s.Body)
-			for varName := range modifiedVars {
-				delete(o.constants, varName)
-				delete(o.copies, varName)
-				delete(o.expressions, varName)
-			}
+			o.invalidate(modifiedVars)
 
 			// Loop invariant code motion (OptAggressive only)
 			var invariantStmts []ast.Statement
@@ -336,40 +344,32 @@ func (o *Optimizer) OptimizeStatements(stmts []ast.Statement) []ast.Statement {
 				Body:      o.OptimizeStatements(loopBody),
 			}
 			result = append(result, optimized)
+			// What the body learnt about the variables it assigns holds only
+			// inside an iteration: the loop may have run zero times, or have
+			// been left before the assignment.
+			o.invalidate(modifiedVars)
 
 		case *ast.ForStatement:
 			// Invalidate constants for any variables modified in the for loop body
 			// because the loop may execute multiple times or not at all
 			modifiedVars := getModifiedVariables(s.Body)
-			for varName := range modifiedVars {
-				delete(o.constants, varName)
-				delete(o.copies, varName)
-				delete(o.expressions, varName)
-			}
+			o.invalidate(modifiedVars)
 			// Also invalidate the loop variables themselves
 			if s.KeyVar != "" {
-				delete(o.constants, s.KeyVar)
-				delete(o.copies, s.KeyVar)
+				o.kill(s.KeyVar)
 			}
-			delete(o.constants, s.ValueVar)
-			delete(o.copies, s.ValueVar)
+			o.kill(s.ValueVar)
 			// Add the for statement unchanged (could optimize body in future)
 			result = append(result, s)
 
 		case ast.ForStatement:
 			// Same as *ast.ForStatement
 			modifiedVars := getModifiedVariables(s.Body)
-			for varName := range modifiedVars {
-				delete(o.constants, varName)
-				delete(o.copies, varName)
-				delete(o.expressions, varName)
-			}
+			o.invalidate(modifiedVars)
 			if s.KeyVar != "" {
-				delete(o.constants, s.KeyVar)
-				delete(o.copies, s.KeyVar)
+				o.kill(s.KeyVar)
 			}
-			delete(o.constants, s.ValueVar)
-			delete(o.copies, s.ValueVar)
+			o.kill(s.ValueVar)
 			result = append(result, &s)
 
 		case *ast.SwitchStatement:
@@ -377,20 +377,12 @@ func (o *Optimizer) OptimizeStatements(stmts []ast.Statement) []ast.Statement {
 			// because we don't know which case will execute at compile time
 			for _, switchCase := range s.Cases {
 				modifiedVars := getModifiedVariables(switchCase.Body)
-				for varName := range modifiedVars {
-					delete(o.constants, varName)
-					delete(o.copies, varName)
-					delete(o.expressions, varName)
-				}
+				o.invalidate(modifiedVars)
 			}
 			// Also invalidate variables modified in the default case
 			if len(s.Default) > 0 {
 				modifiedVars := getModifiedVariables(s.Default)
-				for varName := range modifiedVars {
-					delete(o.constants, varName)
-					delete(o.copies, varName)
-					delete(o.expressions, varName)
-				}
+				o.invalidate(modifiedVars)
 			}
 			result = append(result, s)
 
@@ -398,19 +390,11 @@ func (o *Optimizer) OptimizeStatements(stmts []ast.Statement) []ast.Statement {
 			// Same as *ast.SwitchStatement
 			for _, switchCase := range s.Cases {
 				modifiedVars := getModifiedVariables(switchCase.Body)
-				for varName := range modifiedVars {
-					delete(o.constants, varName)
-					delete(o.copies, varName)
-					delete(o.expressions, varName)
-				}
+				o.invalidate(modifiedVars)
 			}
 			if len(s.Default) > 0 {
 				modifiedVars := getModifiedVariables(s.Default)
-				for varName := range modifiedVars {
-					delete(o.constants, varName)
-					delete(o.copies, varName)
-					delete(o.expressions, varName)
-				}
+				o.invalidate(modifiedVars)
 			}
 			result = append(result, &s)
 
@@ -462,16 +446,44 @@ func (o *Optimizer) restoreFacts(f optimizerFacts) {
 // invalidate forgets everything known about the given variables.
 func (o *Optimizer) invalidate(vars map[string]bool) {
 	for varName := range vars {
-		delete(o.constants, varName)
-		delete(o.copies, varName)
-		delete(o.expressions, varName)
-		// a copy of an invalidated variable is stale too
-		for dst, src := range o.copies {
-			if src == varName {
-				delete(o.copies, dst)
-			}
+		o.kill(varName)
+	}
+}
+
+// kill forgets every fact that depends on the value name had so far: its own
+// constant, copy and remembered expressions, the copies made of it, and the
+// remembered expressions that mention it. It must run whenever name is
+// assigned, before the facts about its new value are recorded.
+func (o *Optimizer) kill(name string) {
+	delete(o.constants, name)
+	delete(o.copies, name)
+	for dst, src := range o.copies {
+		if src == name {
+			delete(o.copies, dst)
 		}
 	}
+	for key, holder := range o.expressions {
+		if holder == name || keyMentions(key, name) {
+			delete(o.expressions, key)
+		}
+	}
+}
+
+// keyMentions reports whether the expression key (see exprKey) reads variable name.
+func keyMentions(key, name string) bool {
+	tok := "var:" + name
+	for i := strings.Index(key, tok); i >= 0; {
+		end := i + len(tok)
+		if end == len(key) || key[end] == ' ' || key[end] == ')' {
+			return true
+		}
+		j := strings.Index(key[end:], tok)
+		if j < 0 {
+			break
+		}
+		i = end + j
+	}
+	return false
 }
 
 // foldBinaryOp performs constant folding on binary operations
